@@ -475,13 +475,25 @@ func FilterRawRef(raw string, rejects func(string) bool) string {
 				k++
 			}
 		}
-		if k > j && rejects(strings.ToLower(raw[j:k])) {
+		if k > j && rejects(asciiLower(raw[j:k])) {
 			sb.WriteString("&lt;")
 		} else {
 			sb.WriteByte('<')
 		}
 	}
 	return sb.String()
+}
+
+// asciiLower lower-cases A-Z only: HTML tag names are ASCII case-insensitive,
+// and U+0130 or U+212A in a name are not the letters i and k.
+func asciiLower(s string) string {
+	b := []byte(s)
+	for i, c := range b {
+		if c >= 'A' && c <= 'Z' {
+			b[i] = c + 'a' - 'A'
+		}
+	}
+	return string(b)
 }
 
 // Match walks the library's output in lock step with the expected tokens.
